@@ -5,7 +5,7 @@ import vt
 vt.use_repo()
 warnings.simplefilter('ignore')
 from vt import api
-from vt.api import cond, deep, fam, tier
+from vt.api import cond, deep, fam, tier, pick
 from vt.refs import negotiation as ref
 from vt.harness import assoc as A
 from pynetdicom2 import applicationentity, asceprovider, pdu, exceptions, userdataitems as udi
@@ -145,6 +145,7 @@ def accept_one(perm: int, k: int, s0: bool, s1: bool, s2: bool, s3: bool) -> boo
     pre: 0 <= perm < len(_perms()) and 1 <= k <= 3 and (_u() == 4 or not s3)
     post: _
     """
+    perm, k = pick(perm, 0, 23), pick(k, 1, 3)
     cid = (1, 255, 129, 3, 77)[(perm + k) % 5]   # ids vary with the path (dict keys: a symbolic id would be realised)
     bits = (s0, s1, s2, s3)
     ae, svcs = make_ae(fam('scp'), bits)
@@ -173,6 +174,7 @@ def accept_many(n: int, a0: int, a1: int, a2: int, s0: bool, s1: bool) -> bool:
     pre: 0 <= n <= 3 and 0 <= a0 <= 2 and 0 <= a1 <= 2 and 0 <= a2 <= 2
     post: _
     """
+    n, a0, a1, a2 = pick(n, 0, 3), pick(a0, 0, 2), pick(a1, 0, 2), pick(a2, 0, 2)
     h0, h1, h2 = [(0, 1, 2), (2, 1, 0), (126, 0, 127), (3, 125, 4)][(a0 + 2 * a1 + a2) % 4]
     bits = (s0, s1, False, False)
     ae, svcs = make_ae(fam('scp'), bits)
